@@ -179,7 +179,7 @@ def gen_tree(rng, feats=None):
         elif kind == "dangling":
             dest = rng.choice(["nothing-here", "../nowhere/x.txt", "/no/such/member", "a.txt/not-a-dir"])
         elif kind == "escape":
-            dest = "../" * (d.count("/") + (2 if d else 1)) + rng.choice(["outside.txt", "XT/a.txt", "etc/passwd"])
+            dest = "../" * (d.count("/") + (2 if d else 1)) + rng.choice(["outside.txt", "etc/passwd", "nowhere"])
         elif kind == "chain":
             prev = [e for e in ents if e["kind"] == "link"]
             if not prev:
